@@ -875,3 +875,70 @@ func TestVerif_C45(t *testing.T) {
 	}
 	r.Extra("deviation_bound", "none (complete)")
 }
+
+// TestVerifRace_C45 runs the dump bodies of part 1 free under the race detector (real repository,
+// 4 and 6 loader workers, regular and shrunk blob cache): the gated exploration of part 2 orders loader
+// events only, accesses of the dumper's goroutines between two loader events are the race detector's business.
+func TestVerifRace_C45(t *testing.T) {
+	r := vh.Start(t, "C45")
+	defer r.Finish()
+	ctx := context.Background()
+	oracle.LowKDF()
+	restore := detrand.Install(4545)
+	repo, _, err := oracle.NewRepo(ctx, 2, repository.Options{})
+	if err != nil {
+		t.Fatal(err)
+	}
+	trees := verifC45Trees()
+	err = repo.WithBlobUploader(ctx, func(ctx context.Context, up restic.BlobSaverWithAsync) error {
+		for _, b := range verifC45Pool {
+			if _, _, _, err := up.SaveBlob(ctx, restic.DataBlob, b, restic.ID{}, false); err != nil {
+				return err
+			}
+		}
+		for _, tr := range trees {
+			id, err := verifC45Forge(ctx, up, tr.kids)
+			if err != nil {
+				return err
+			}
+			tr.id = id
+		}
+		return nil
+	})
+	restore()
+	if err != nil {
+		t.Fatal(err)
+	}
+	for round := 0; round < 3; round++ {
+		for _, tr := range trees {
+			if tr.name != "sched" && tr.name != "seqs" && tr.name != "mixed" {
+				continue
+			}
+			for _, format := range []string{"tar", "zip"} {
+				for _, conns := range []uint{4, 6} {
+					for _, cache := range []int{0, verifC45SmallCache} {
+						want := verifC45Expected(tr.kids, "/")
+						ld := &verifC45Conns{Repository: repo, conns: conns}
+						var buf bytes.Buffer
+						it, derr := data.LoadTree(ctx, ld, tr.id)
+						if derr == nil {
+							d := dump.New(format, ld, &buf)
+							if cache > 0 {
+								dump.VerifSetCacheSize(d, cache)
+							}
+							derr = d.DumpTree(ctx, it, "/")
+						}
+						r.Eval(1)
+						if derr != nil {
+							r.Violation("", "C45|free-running|dump-failed|"+format, fmt.Sprintf("free-running pass: DumpTree(%s, %s, conns=%d, cache=%d) failed: %v", tr.name, format, conns, cache, derr), nil)
+							continue
+						}
+						for _, df := range verifC45Compare(format, buf.Bytes(), want, verifC45Forbidden(tr.kids, "/")) {
+							r.Violation("", "C45|free-running|"+df.kind+"|"+format, fmt.Sprintf("free-running pass: dump of %s as %s (conns=%d, cache=%d): %s", tr.name, format, conns, cache, df.what), nil)
+						}
+					}
+				}
+			}
+		}
+	}
+}
